@@ -378,6 +378,12 @@ class Interp:
                 b = self.ev(node.right, env, cons)
                 if isinstance(a, str) and isinstance(b, Sym):
                     return Rendered(printf=a, arg=b)
+                if isinstance(a, Sym) and a.kind == "int" and isinstance(b, int) and not isinstance(b, bool) and b > 0:
+                    # Python's % on integers: a = q*b + r with 0 <= r < b
+                    self.fresh += 1
+                    q, r = z3.Int(f"q{self.fresh}"), z3.Int(f"m{self.fresh}")
+                    cons.append(z3.And(a.term == z3.ToReal(q) * b + z3.ToReal(r), r >= 0, r < b))
+                    return Sym(z3.ToReal(r), "int")
                 raise Unsupported("% on " + type(a).__name__)
             a = self.ev(node.left, env, cons)
             b = self.ev(node.right, env, cons)
@@ -445,6 +451,15 @@ class Interp:
                     return Sym(z3.Real(f"g{x.index}"), "real")
                 if isinstance(x, (int, float)):
                     return float(x)
+            if isinstance(f, ast.Name) and f.id == "round" and len(node.args) == 2:
+                x = self.ev(node.args[0], env, cons)
+                ok, nd = self._concrete(node.args[1], env)
+                if isinstance(x, Sym) and ok and isinstance(nd, int) and 0 <= nd <= 9:
+                    self.fresh += 1
+                    k = z3.Int(f"k{self.fresh}")
+                    sc = 10 ** nd
+                    cons.append(z3.And(z3.ToReal(k) - z3.RealVal("1/2") <= x.term * sc, x.term * sc <= z3.ToReal(k) + z3.RealVal("1/2")))
+                    return Sym(z3.ToReal(k) / sc, "real" if nd else "int")
             if isinstance(f, ast.Name) and f.id == "round" and len(node.args) == 1:
                 x = self.ev(node.args[0], env, cons)
                 if isinstance(x, Sym):
